@@ -391,6 +391,39 @@ func compareAnchor(w *mc.World, m *model.State, wrk bool) []Disc {
 			}
 		}
 	}
+	// the registry as the keeper lists it (what genesis export and the legacy listings walk) carries the
+	// same identities, one entry per registration, ascending
+	{
+		ctx := w.Ctx()
+		type ent struct {
+			id    uint64
+			owner string
+			ident []string
+			reg   uint64
+		}
+		var got []ent
+		if wrk {
+			for _, c := range w.App.WrkchainKeeper.GetAllWrkChains(ctx) {
+				got = append(got, ent{c.WrkchainId, c.Owner, []string{c.Moniker, c.Name, c.Genesis, c.Type}, c.RegTime})
+			}
+		} else {
+			for _, c := range w.App.BeaconKeeper.GetAllBeacons(ctx) {
+				got = append(got, ent{c.BeaconId, c.Owner, []string{c.Moniker, c.Name}, c.RegTime})
+			}
+		}
+		if len(got) != len(ids) {
+			add(disc("anch.identity", "%s registry lists %d entries, %d were registered", mod, len(got), len(ids)))
+		}
+		for i, g := range got {
+			if i >= len(ids) {
+				break
+			}
+			e := a.Ents[ids[i]]
+			if g.id != ids[i] || g.owner != BechOf(w, e.Owner) || strings.Join(g.ident, "\x00") != strings.Join(e.Ident, "\x00") || int64(g.reg) != e.RegTime {
+				add(disc("anch.identity", "%s registry entry %d: listed {id %d owner %s ident %q reg %d}, registered {id %d owner %s ident %q reg %d}", mod, i, g.id, NameOfBech(w, g.owner), g.ident, g.reg, ids[i], e.Owner, e.Ident, e.RegTime))
+			}
+		}
+	}
 	// nothing registered beyond the model's counter
 	if wrk {
 		var r wrkchaintypes.QueryWrkChainResponse
